@@ -1207,7 +1207,7 @@ func (o *cpObs) tamperRound(s *Sim, f *cpFile, rg *rand.Rand, benign bool) {
 			detail += o.adoptionDemo(s, f, secs, rg)
 		}
 		s.log.Add("  C15 %s: VERIFIES with a different staged state: %s", t.class, desc)
-		if kernel.KnownKey("C15", t.class) {
+		if cpIsKnown("C15", t.class) {
 			s.known = append(s.known, kernel.Violation{Property: "C15", Oracle: "tampered-state-verifies", Key: t.class, Detail: detail, Step: s.step})
 			s.stat("known."+t.class, 1)
 			continue
